@@ -2,6 +2,7 @@ import H3.Drv.Util
 import H3.Drv.C16
 import H3.Drv.C18
 import H3.Drv.C02
+import H3.Drv.C15
 open H3.Drv
 
 def dispatch (ws : List String) : String :=
@@ -11,6 +12,7 @@ def dispatch (ws : List String) : String :=
     if e == "varint" || e == "sid" then H3.Drv.C16.handle ws
     else if e == "dgram" then H3.Drv.C18.handle ws
     else if e == "frame" || e == "fs" then H3.Drv.C02.handle ws
+    else if e == "pint" || e == "huff" || e == "pstr" then H3.Drv.C15.handle ws
     else "bad-op"
 
 partial def loop (h : IO.FS.Stream) (out : IO.FS.Stream) : IO Unit := do
